@@ -37,17 +37,36 @@ class Unit:
         self.hints = []        # dict(fn, where, anchor, nth, text, line)
         self.substs = []       # dict(scope, opt, frm, to, line, count)
         self.canaries = []     # dict(fn, text, line)
+        self.closures = []     # dict(fn, anchor, nth, text, line): closure header annotations (types + requires/ensures)
         self.settings = {}
         self.tags = {}         # fnpath -> set(props)   (which properties claim this function)
         self.vcpath = None
+        self.outside = []      # raw Rust emitted after the verus! block (Display impls etc.)
+
+
+def vctag(u, line):
+    return "%s:%d" % (u.incfiles[line // 100000], line % 100000)
 
 
 def parse_vc(path):
     u = None
     cur = None
-    lines = open(path).read().split("\n")
     u = Unit(os.path.splitext(os.path.basename(path))[0])
     u.vcpath = path
+    # textual include of library contract files: `@@ vcinclude lib/buffer.vcl`; lines of the k-th
+    # included file are numbered k*100000 + n (decoded by vctag())
+    lines = []
+    u.incfiles = [os.path.basename(path)]
+
+    def expand(pth, base):
+        for n, raw in enumerate(open(pth).read().split("\n"), 1):
+            if raw.startswith("@@ vcinclude"):
+                ip = os.path.join(os.path.dirname(path), raw.split()[2])
+                u.incfiles.append(os.path.relpath(ip, os.path.dirname(path)))
+                expand(ip, (len(u.incfiles) - 1) * 100000)
+            else:
+                lines.append((base + n, raw))
+    expand(path, 0)
     body = []
 
     def flush():
@@ -74,11 +93,16 @@ def parse_vc(path):
         elif kind == "canary":
             cur["text"] = text
             u.canaries.append(cur)
+        elif kind == "closure":
+            cur["text"] = text
+            u.closures.append(cur)
         elif kind == "verus":
             u.seq.append(dict(kind="verus", text=text, line=cur["line"]))
+        elif kind == "rust":
+            u.outside.append(text)
         cur, body = None, []
 
-    for ln, raw in enumerate(lines, 1):
+    for ln, raw in lines:
         if not raw.startswith("@@"):
             if cur is not None:
                 body.append(raw)
@@ -98,7 +122,11 @@ def parse_vc(path):
             u.sources[parts[1]] = parts[2]
         elif d in ("struct", "enum", "const", "static", "type", "trait"):
             opts = parts[3:]
-            u.seq.append(dict(kind="item", ikind=d, src=parts[1], name=parts[2], opts=opts, line=ln))
+            new = None
+            if "as" in opts:
+                new = opts[opts.index("as") + 1]
+                opts = [o for o in opts if o not in ("as", new)]
+            u.seq.append(dict(kind="item", ikind=d, src=parts[1], name=parts[2], opts=opts, line=ln, new=new))
         elif d == "fn":
             # @@ fn <src> <name> [as <new>] [in <mod>]
             new = parts[parts.index("as") + 1] if "as" in parts else parts[2]
@@ -143,16 +171,23 @@ def parse_vc(path):
         elif d == "loop":
             cur = dict(kind="loop", fn=parts[1], n=int(parts[2]), line=ln)
         elif d == "hint":
-            m = re.match(r'@@\s*hint\s+(\S+)\s+(before|after)\s+"(.*)"(?:\s+#(\d+))?\s*$', raw)
+            m = re.match(r'@@\s*hint\s+(\S+)\s+(before|after)\s+"(.*)"(?:\s+#(\d+))?(?:\s+\+(\d+))?\s*$', raw)
             if not m:
                 raise SystemExit("%s:%d: bad hint" % (path, ln))
-            cur = dict(kind="hint", fn=m.group(1), where=m.group(2), anchor=m.group(3), nth=int(m.group(4) or 1), line=ln)
+            cur = dict(kind="hint", fn=m.group(1), where=m.group(2), anchor=m.group(3), nth=int(m.group(4) or 1), plus=int(m.group(5) or 0), line=ln)
+        elif d == "closure":
+            m = re.match(r'@@\s*closure\s+(\S+)\s+"(.*)"(?:\s+#(\d+))?\s*$', raw)
+            if not m:
+                raise SystemExit("%s:%d: bad closure" % (path, ln))
+            cur = dict(kind="closure", fn=m.group(1), anchor=m.group(2), nth=int(m.group(3) or 1), line=ln)
         elif d == "subst":
             cur = dict(kind="subst", scope=parts[1], opt=("opt" in parts[2:]), line=ln)
         elif d == "canary":
             cur = dict(kind="canary", fn=parts[1], line=ln)
         elif d == "verus":
             cur = dict(kind="verus", line=ln)
+        elif d == "rust":
+            cur = dict(kind="rust", line=ln)
         elif d == "include":
             ip = os.path.join(os.path.dirname(path), "inc", parts[1] + ".vinc")
             u.seq.append(dict(kind="verus", text=open(ip).read().strip("\n"), line=0, origin="inc/%s.vinc" % parts[1]))
@@ -223,6 +258,16 @@ def rewrite_macros(text, log, where, settings):
             elif name == "unreachable" and inner.strip():
                 repl = "unreachable!()"
                 log.append(("R2", where, "unreachable-message-dropped"))
+            elif name == "format" and settings.get("format") == "stub":
+                a = split_args(inner)[1:]
+                stm = []
+                for x in a:
+                    m = re.match(r"^([A-Za-z_][A-Za-z0-9_]*)\s*=\s*(?!=)(.*)$", x, re.S)
+                    if m:
+                        x = m.group(2)
+                    stm.append("let _ = &(%s);" % x)
+                repl = "{ %s verif_fmt() }" % " ".join(stm)
+                log.append(("R4", where, "format! -> verif_fmt() (text dropped, args evaluated)"))
             elif name in LOG_MACROS and (start != t.start or settings.get("barelog") == "1" or name in ("println", "eprintln", "print", "eprint")):
                 a = split_args(inner)[1:]
                 stm = []
@@ -240,6 +285,21 @@ def rewrite_macros(text, log, where, settings):
                 break
         if not changed:
             return text
+
+
+R6_PATS = [
+    (re.compile(r"u16::from_be_bytes\(\s*([^;{}]*?)\s*\.try_into\(\)\s*\.unwrap\(\)\s*,?\s*\)", re.S), r"verif_be16(\1)"),
+    (re.compile(r"u32::from_be_bytes\(\s*([^;{}]*?)\s*\.try_into\(\)\s*\.unwrap\(\)\s*,?\s*\)", re.S), r"verif_be32(\1)"),
+]
+
+
+def rewrite_be_bytes(text, log, where):
+    """R6: uN::from_be_bytes(X.try_into().unwrap()) -> verif_beN(X)  (stub requires X.len()==N/8)"""
+    for pat, rep in R6_PATS:
+        text, n = pat.subn(rep, text)
+        for _ in range(n):
+            log.append(("R6", where, rep.split("(")[0]))
+    return text
 
 
 def rewrite_quals(text, log, where):
@@ -416,7 +476,113 @@ def apply_substs(u, fnpath, text, log):
         if c:
             text = text.replace(s["frm"], s["to"])
             s["count"] += c
-            log.append(("subst", fnpath, "%s:%d x%d" % (os.path.basename(u.vcpath), s["line"], c)))
+            log.append(("subst", fnpath, "%s x%d" % (vctag(u, s["line"]), c)))
+    return text
+
+
+def name_wildcard_closure_params(text, log, where):
+    """R14: `|_|` closure parameter -> `|_verif_unused|` (Verus accepts only variables there)."""
+    toks = lex(text)
+    edits = []
+    for i in range(1, len(toks) - 2):
+        if toks[i].text == "|" and toks[i + 1].kind == "id" and toks[i + 1].text == "_" and toks[i + 2].text == "|" \
+                and toks[i - 1].text in ("(", ",", "=", "move"):
+            edits.append(toks[i + 1])
+    for t in reversed(edits):
+        text = text[:t.start] + "_verif_unused" + text[t.end:]
+        log.append(("R14", where, "|_| -> |_verif_unused|"))
+    return text
+
+
+def demut_params(text, log, where):
+    """R15: `fn f(mut x: T)` -> `fn f(x: T) { let mut x = x; ...`  (Verus rejects `mut` parameter bindings)"""
+    p = fn_parts(text)
+    toks = p["toks"]
+    names = []
+    edits = []
+    i = p["params_open"] + 1
+    start = True
+    while i < p["params_close"]:
+        t = toks[i]
+        if start and t.kind == "id" and t.text == "mut" and toks[i + 1].kind == "id" and toks[i + 2].text == ":" and toks[i + 1].text != "self":
+            names.append(toks[i + 1].text)
+            edits.append((t.start, toks[i + 1].start))
+        start = False
+        if t.kind == "p" and t.text in OPEN:
+            i = match_close(toks, i) + 1
+            continue
+        if t.kind == "p" and t.text == "<":
+            depth = 0
+            while i < p["params_close"]:
+                if toks[i].text == "<":
+                    depth += 1
+                elif toks[i].text == ">":
+                    depth -= 1
+                elif toks[i].text == ">>":
+                    depth -= 2
+                if depth <= 0:
+                    break
+                i += 1
+        if t.kind == "p" and t.text == ",":
+            start = True
+        i += 1
+    if not names:
+        return text
+    bo = toks[p["body_open"]].end
+    text = text[:bo] + "".join("\n        let ghost old_%s = %s; let mut %s = %s;" % (n, n, n, n) for n in names) + text[bo:]
+    for (a, b) in reversed(edits):
+        text = text[:a] + text[b:]
+    log.append(("R15", where, "mut params rebound: %s" % ",".join(names)))
+    return text
+
+
+def annotate_closures(u, fnpath, text, log):
+    """R13: give a closure an explicit Verus header (parameter types, requires/ensures); the body is
+    kept verbatim (wrapped in a block when it is a bare expression)."""
+    for c in u.closures:
+        if c["fn"] != fnpath:
+            continue
+        pos = -1
+        for _ in range(c["nth"]):
+            pos = text.find(c["anchor"], pos + 1)
+            if pos < 0:
+                raise Lost("closure anchor %r not found in %s (%s:%d)" % (c["anchor"], fnpath, u.vcpath, c["line"]))
+        toks = lex(text)
+        k = None
+        for i, t in enumerate(toks):
+            if t.start >= pos and t.kind == "p" and t.text in ("|", "||"):
+                k = i
+                break
+        if k is None:
+            raise Lost("no closure after anchor %r in %s" % (c["anchor"], fnpath))
+        if toks[k].text == "||":
+            pe = k
+        else:
+            pe = k + 1
+            while not (toks[pe].kind == "p" and toks[pe].text == "|"):
+                if toks[pe].kind == "p" and toks[pe].text in OPEN:
+                    pe = match_close(toks, pe)
+                pe += 1
+        b = pe + 1
+        if toks[b].text == "{":
+            be = match_close(toks, b)
+            body = text[toks[b].start:toks[be].end]
+            end = toks[be].end
+        else:
+            j = b
+            while j < len(toks):
+                tj = toks[j]
+                if tj.kind == "p" and tj.text in OPEN:
+                    j = match_close(toks, j) + 1
+                    continue
+                if tj.kind == "p" and tj.text in (")", "]", "}", ",", ";"):
+                    break
+                j += 1
+            end = toks[j - 1].end
+            body = "{ " + text[toks[b].start:end] + " }"
+        hdr = " ".join("/*@closure %s*/ %s" % (vctag(u, c["line"] + 1 + n), l) for n, l in enumerate(c["text"].split("\n")))
+        text = text[:toks[k].start] + hdr + " " + body + text[end:]
+        log.append(("R13", fnpath, "closure header annotated (%s)" % vctag(u, c["line"])))
     return text
 
 
@@ -424,8 +590,12 @@ def process_fn(u, fnpath, text, log, origin, canary=None):
     """apply R1,R2,R4,substs; splice spec/loop/hints.  returns new text and clause line info"""
     settings = u.settings
     text = rewrite_quals(text, log, fnpath)
+    text = demut_params(text, log, fnpath)
     text = rewrite_macros(text, log, fnpath, settings)
+    text = rewrite_be_bytes(text, log, fnpath)
     text = apply_substs(u, fnpath, text, log)
+    text = name_wildcard_closure_params(text, log, fnpath)
+    text = annotate_closures(u, fnpath, text, log)
     # hints first (they are anchored on original body lines)
     for h in u.hints:
         if h["fn"] != fnpath:
@@ -434,9 +604,9 @@ def process_fn(u, fnpath, text, log, origin, canary=None):
         hits = [i for i, l in enumerate(lines) if h["anchor"] in l]
         if len(hits) < h["nth"]:
             raise Lost("hint anchor %r (#%d) not found in %s (%s:%d)" % (h["anchor"], h["nth"], fnpath, u.vcpath, h["line"]))
-        at = hits[h["nth"] - 1]
+        at = hits[h["nth"] - 1] + h.get("plus", 0)
         ins = h["text"].split("\n")
-        ins = ["/*@hint %s:%d*/ %s" % (os.path.basename(u.vcpath), h["line"] + 1 + k, l) for k, l in enumerate(ins)]
+        ins = ["/*@hint %s*/ %s" % (vctag(u, h["line"] + 1 + k), l) for k, l in enumerate(ins)]
         if h["where"] == "before":
             lines[at:at] = ins
         else:
@@ -452,7 +622,24 @@ def process_fn(u, fnpath, text, log, origin, canary=None):
             raise Lost("loop #%d not found in %s (has %d loops)" % (n, fnpath, len(lps)))
         ltext, lline = u.loops[(fnpath, n)]
         kwoff, off, kw = lps[n - 1]
-        tagged = "\n".join("/*@loop %s:%d*/ %s" % (os.path.basename(u.vcpath), lline + 1 + k, l) for k, l in enumerate(ltext.split("\n")))
+        if kw == "for" and "verif_it" in ltext:
+            # R16: name the for-loop iterator (Verus syntax `for x in verif_it: e`) so that the
+            # contract can mention it; the iterated expression is unchanged
+            ltoks = lex(text[kwoff:off])
+            depth_in = None
+            for li, lt in enumerate(ltoks):
+                if lt.kind == "p" and lt.text in OPEN:
+                    continue
+                if lt.kind == "id" and lt.text == "in":
+                    depth_in = lt
+                    break
+            if depth_in is None:
+                raise Lost("for-loop header of loop #%d in %s has no `in`" % (n, fnpath))
+            ins = kwoff + depth_in.end
+            text = text[:ins] + " verif_it:" + text[ins:]
+            off += len(" verif_it:")
+            log.append(("R16", fnpath, "for-loop #%d iterator named verif_it" % n))
+        tagged = "\n".join("/*@loop %s*/ %s" % (vctag(u, lline + 1 + k), l) for k, l in enumerate(ltext.split("\n")))
         text = text[:off] + "\n" + tagged + "\n" + text[off:]
     # signature
     spec = u.specs.get(fnpath)
@@ -468,7 +655,7 @@ def process_fn(u, fnpath, text, log, origin, canary=None):
             t_end = toks[p["where"]].start if p["where"] is not None else bo
             rtype = text[a_end:t_end].strip()
             head = text[:a_end] + " (" + spec["ret"] + ": " + rtype + ")\n" + (text[t_end:bo] if p["where"] is not None else "")
-        tagged = "\n".join("/*@spec %s:%d*/ %s" % (os.path.basename(u.vcpath), spec["line"] + 1 + k, l) for k, l in enumerate(spec["text"].split("\n")))
+        tagged = "\n".join("/*@spec %s*/ %s" % (vctag(u, spec["line"] + 1 + k), l) for k, l in enumerate(spec["text"].split("\n")))
         text = head.rstrip() + "\n" + tagged + "\n" + text[bo:]
         if spec.get("attrs"):
             text = spec["attrs"] + "\n" + text
@@ -529,7 +716,7 @@ class Assembler:
         for d in u.seq:
             k = d["kind"]
             if k == "verus":
-                self.emit(d["text"], d.get("origin") or "%s:%d" % (os.path.basename(u.vcpath), d["line"] + 1), None)
+                self.emit(d["text"], d.get("origin") or vctag(u, d["line"] + 1), None)
             elif k == "item":
                 s = self.src(d["src"])
                 its = s.find_top(d["ikind"], d["name"])
@@ -538,6 +725,9 @@ class Assembler:
                 it = its[0]
                 text, off = strip_attrs(s, it)
                 text = rewrite_quals(text, self.log, d["name"])
+                if d.get("new"):
+                    text = re.sub(r"\b%s\b" % re.escape(d["name"]), d["new"], text, count=1)
+                    self.log.append(("rename", d["name"], "item renamed to %s (name clash inside the single-file unit)" % d["new"]))
                 if d["ikind"] == "struct":
                     text = pub_fields(text, self.log, d["name"])
                 text = apply_substs(u, d["name"], text, self.log)
@@ -692,7 +882,7 @@ class Assembler:
             u.specs[fnpath] = save
         p = fn_parts(body)
         bo = p["toks"][p["body_open"]].start
-        tagged = "\n".join("/*@spec %s:%d*/ %s" % (os.path.basename(u.vcpath), spec["line"] + 1 + k, l) for k, l in enumerate(spec["text"].split("\n"))) if spec["text"].strip() else ""
+        tagged = "\n".join("/*@spec %s*/ %s" % (vctag(u, spec["line"] + 1 + k), l) for k, l in enumerate(spec["text"].split("\n"))) if spec["text"].strip() else ""
         body = body[:bo].rstrip() + "\n" + tagged + "\n" + body[bo:]
         self.functions.append(dict(path=fnpath, origin=origin, has_spec=True, canary=False))
         self.emit(body, origin, fnpath)
@@ -700,7 +890,7 @@ class Assembler:
     def render(self):
         out = []
         linemap = []
-        hdr = "// GENERATED by /verif/tools/extract.py from %s -- do not edit\n#![allow(unused_imports, dead_code, unused_variables, unused_mut, unused_assignments, non_snake_case, unused_parens, unused_braces, unreachable_code, non_camel_case_types)]\nuse vstd::prelude::*;\nverus! {\n" % os.path.basename(self.u.vcpath)
+        hdr = "// GENERATED by /verif/tools/extract.py from %s -- do not edit\n#![feature(allocator_api)]\n#![allow(unused_imports, dead_code, unused_variables, unused_mut, unused_assignments, non_snake_case, unused_parens, unused_braces, unreachable_code, non_camel_case_types)]\nuse vstd::prelude::*;\nverus! {\n" % os.path.basename(self.u.vcpath)
         out.append(hdr)
         line = hdr.count("\n") + 1
         for (text, origin, fnpath) in self.chunks:
@@ -709,7 +899,7 @@ class Assembler:
             linemap.append(dict(start=line, end=line + n - 1, origin=origin, fn=fnpath))
             out.append(text)
             line += n
-        out.append("} // verus!\nfn main() {}\n")
+        out.append("} // verus!\n" + "\n".join(self.u.outside) + "\nfn main() {}\n")
         return "".join(out), linemap
 
 
